@@ -175,3 +175,39 @@ func init() {
 		return V{K: KPtr, P: (*V)(nil)}
 	})
 }
+
+func init() {
+	// regexp2 (github.com/dlclark/regexp2): concrete call-outs to Go's regexp for the simple
+	// patterns used as method filters (the library itself is not linked into the checker).
+	reg("github.com/dlclark/regexp2.Compile", func(e *Engine, fr *frame, args []V) V {
+		pat := argStr(e, args[0], "regexp2.Compile pattern")
+		re, err := regexpCompile(pat)
+		if err != nil {
+			return vTuple(V{K: KPtr, P: (*V)(nil)}, e.newErrorString(vStr("regexp2: "+err.Error())))
+		}
+		return vTuple(V{K: KOpaque, P: &re2{re: re, src: pat}}, vNilIface())
+	})
+	reg("github.com/dlclark/regexp2.MustCompile", func(e *Engine, fr *frame, args []V) V {
+		pat := argStr(e, args[0], "regexp2.MustCompile pattern")
+		re, err := regexpCompile(pat)
+		if err != nil {
+			panic(targetPanic{vIface(typesString(), vStr("regexp2: " + err.Error()))})
+		}
+		return V{K: KOpaque, P: &re2{re: re, src: pat}}
+	})
+	reg("(*github.com/dlclark/regexp2.Regexp).MatchString", func(e *Engine, fr *frame, args []V) V {
+		r, ok := args[0].P.(*re2)
+		if !ok {
+			e.unsupported("regexp2 method on a foreign value")
+		}
+		return vTuple(vBool(r.re.MatchString(argStr(e, args[1], "regexp2 subject"))), vNilIface())
+	})
+	reg("(*github.com/dlclark/regexp2.Regexp).String", func(e *Engine, fr *frame, args []V) V {
+		r, ok := args[0].P.(*re2)
+		if !ok {
+			e.unsupported("regexp2 method on a foreign value")
+		}
+		return vStr(r.src)
+	})
+	reg(tg+"utils/dir_utils.ToAbsolute", func(e *Engine, fr *frame, args []V) V { return vTuple(args[0], vNilIface()) })
+}
